@@ -16,10 +16,10 @@ func init() { register("C19", c19) }
 func c19(c *eng.Ctx, r *eng.Report) {
 	r.Explain = "Structural invariants of the group chain store (core/groupchain.go) decided on SSA: " +
 		"R19.1 save and remove are inverses key family by key family — the group record, the last-group pointer, the height index entry of exactly the added/removed group (index = count before the addition = count-1 before the removal) and the count; both update the in-memory count and last group; " +
-		"R19.2 AddGroup saves only under the chain lock, after the parent exists and the predecessor equals the current last group; " +
+		"R19.2 every caller of save (AddGroup today; start-up excepted) saves only under the chain lock, after the parent exists and the predecessor equals the current last group; " +
 		"R19.3 start-up reloads exactly the keys save writes and height lookups use the same key derivation; " +
 		"R19.4 count, lastGroup and the groups store are written only by save, remove and initGroupChain; " +
-		"R19.5 every caller of remove walks from the current top downwards (remove is only correct for the last group); " +
+		"R19.5 every caller of remove walks from the current top downwards (remove is only correct for the last group) inside one critical section of the chain lock; " +
 		"R19.6 no process-local cache sits in front of the group store unless remove() evicts from it. " +
 		"Not decided: a crash between the un-batched Puts of one save/remove (no intent mark exists)."
 	r.Assume = []string{"groupChain methods that mutate run under chain.lock (checked for AddGroup; removeFromCommonAncestor takes it itself)"}
@@ -190,7 +190,7 @@ func c19RemoveTopDown(c *eng.Ctx, r *eng.Report, remove *ssa.Function) {
 		arg := site.Common().Args[1]
 		// the group comes from getGroupByHeight(h) with h a loop variable initialised from the top and decremented
 		var h ssa.Value
-		if call, ok := arg.(*ssa.Call); ok && strings.HasSuffix(eng.CallName(&call.Call), ".getGroupByHeight") {
+		if call, ok := arg.(*ssa.Call); ok && strings.HasSuffix(strings.ToLower(eng.CallName(&call.Call)), ".getgroupbyheight") {
 			h = call.Call.Args[1]
 		}
 		phi, _ := h.(*ssa.Phi)
@@ -224,6 +224,17 @@ func c19RemoveTopDown(c *eng.Ctx, r *eng.Report, remove *ssa.Function) {
 				}
 			}
 		}
+		// the whole unwinding is one critical section: the write lock is taken before the walk starts and released by a
+		// deferred Unlock (or after the loop) — a lock per removed group lets an AddGroup slip in between two removals
+		span := false
+		for _, s2 := range eng.Sites(fn) {
+			if (s2.Name() == "(*sync.RWMutex).Lock" || s2.Name() == "(*sync.Mutex).Lock") && strings.HasSuffix(eng.Desc(s2.Common().Args[0]), ".lock") {
+				if eng.Dominates(s2.Instr, site.Instr) && loopHeaderOf(s2.Instr) == nil {
+					span = true
+				}
+			}
+		}
+		r.Check(span, rule, key+":one-critical-section", c.Pos(site.Pos()), "chain.lock is taken once, before the walk", eng.FuncName(fn)+" does not hold chain.lock across the whole unwinding (no Lock() outside the loop dominates the remove call): an AddGroup that arrives between two removals is accepted against the momentary last group, and the next removal deletes its index entry — count, list and index diverge")
 		r.Check(okInit && okStep, rule, key, c.Pos(site.Pos()), "groups are removed from the current top downwards (height starts at chain.height() and decreases by one)", eng.FuncName(fn)+" does not call remove() on the groups from the top downwards (starts at the top="+fmt.Sprint(okInit)+", steps by -1="+fmt.Sprint(okStep)+"): remove() assumes it is given the current last group, so with two or more groups to drop the wrong index entry is deleted and count, list and height index diverge")
 	}
 }
@@ -263,40 +274,49 @@ func c19Caches(c *eng.Ctx, r *eng.Report, remove *ssa.Function) {
 func c19AddGroup(c *eng.Ctx, r *eng.Report) {
 	const rule = "R19.2"
 	r.Min(rule, 1)
-	fn := c.Func("core", "(*groupChain).AddGroup")
-	if !r.Anchor(fn != nil, rule, "(*groupChain).AddGroup") {
+	save := c.Func("core", "(*groupChain).save")
+	if !r.Anchor(save != nil, rule, "(*groupChain).save") {
 		return
 	}
-	sv := callsNamed(fn, "(*core.groupChain).save")
-	if len(sv) != 1 {
-		r.Fail(rule, "AddGroup:save", c.Pos(fn.Pos()), fmt.Sprintf("%d save calls in AddGroup", len(sv)))
-		return
-	}
-	okParent, okPre, okLock := false, false, false
-	for _, cd := range eng.CondsAt(sv[0]) {
-		d := eng.Desc(cd.V)
-		if ex, isE := cd.V.(*ssa.Extract); isE && cd.True {
-			if call, isC := ex.Tuple.(*ssa.Call); isC && call.Call.IsInvoke() && call.Call.Method.Name() == "Has" && strings.HasSuffix(eng.Desc(call.Call.Args[0]), ".Header.Parent") {
-				okParent = true
+	n := 0
+	// every path that appends a group — AddGroup today, any additional entry point tomorrow — carries the guards
+	for _, site := range c.Callers(save) {
+		fn := site.Fn
+		if c.IsTestFunc(fn) || fn.Name() == "initGroupChain" {
+			continue // start-up writes the genesis groups onto an empty store
+		}
+		n++
+		sv, _ := site.Instr.(*ssa.Call)
+		if sv == nil {
+			r.Fail(rule, eng.FuncName(fn)+":save", c.Pos(site.Pos()), "save is not called directly")
+			continue
+		}
+		okParent, okPre, okLock := false, false, false
+		for _, cd := range eng.CondsAt(sv) {
+			if ex, isE := cd.V.(*ssa.Extract); isE && cd.True {
+				if call, isC := ex.Tuple.(*ssa.Call); isC && call.Call.IsInvoke() && call.Call.Method.Name() == "Has" && strings.HasSuffix(eng.Desc(call.Call.Args[0]), ".Header.Parent") {
+					okParent = true
+				}
+			}
+			if m, isM := cd.Cmp(); isM && m.Via == "bytes.Equal" && m.Op == token.EQL {
+				dd := eng.Desc(m.X) + "|" + eng.Desc(m.Y)
+				if strings.Contains(dd, ".lastGroup.Id") && strings.Contains(dd, ".Header.PreGroup") {
+					okPre = true
+				}
 			}
 		}
-		if m, isM := cd.Cmp(); isM && m.Via == "bytes.Equal" && m.Op == token.EQL {
-			dd := eng.Desc(m.X) + "|" + eng.Desc(m.Y)
-			if strings.Contains(dd, ".lastGroup.Id") && strings.Contains(dd, ".Header.PreGroup") {
-				okPre = true
+		for _, s := range eng.Sites(fn) {
+			if s.Name() == "(*sync.RWMutex).Lock" || s.Name() == "(*sync.Mutex).Lock" {
+				if strings.HasSuffix(eng.Desc(s.Common().Args[0]), ".lock") && eng.Dominates(s.Instr, sv) {
+					okLock = true
+				}
 			}
 		}
-		_ = d
+		name := strings.TrimPrefix(eng.FuncName(fn), "(*core.groupChain).")
+		r.Check(okParent && okPre && okLock, rule, name+":guards", c.Pos(sv.Pos()), "save only under chain.lock, with the parent present and PreGroup == lastGroup.Id",
+			fmt.Sprintf("%s can save a group that does not extend the list (parent exists=%v, predecessor == last group=%v, under lock=%v): count and height index grow while the predecessor list does not, or two additions interleave", eng.FuncName(fn), okParent, okPre, okLock))
 	}
-	for _, s := range eng.Sites(fn) {
-		if s.Name() == "(*sync.RWMutex).Lock" || s.Name() == "(*sync.Mutex).Lock" {
-			if strings.HasSuffix(eng.Desc(s.Common().Args[0]), ".lock") && eng.Dominates(s.Instr, sv[0]) {
-				okLock = true
-			}
-		}
-	}
-	r.Check(okParent && okPre && okLock, rule, "AddGroup:guards", c.Pos(sv[0].Pos()), "save only under chain.lock, with the parent present and PreGroup == lastGroup.Id",
-		fmt.Sprintf("AddGroup can save a group that does not extend the list (parent exists=%v, predecessor == last group=%v, under lock=%v)", okParent, okPre, okLock))
+	r.Check(n >= 1, rule, "save:callers", "", fmt.Sprintf("%d callers of save besides start-up", n), "no caller of save besides start-up (AddGroup expected)")
 }
 
 func c19Keys(c *eng.Ctx, r *eng.Report, save *ssa.Function) {
